@@ -55,7 +55,14 @@ pub trait Property: Sync {
     /// `run`, with a panic of the harness itself (outside the logical threads) turned into an inconclusive report
     fn run_guarded(&self, case: &Self::Case) -> RunReport {
         match std::panic::catch_unwind(std::panic::AssertUnwindSafe(|| self.run(case))) {
-            Ok(r) => r,
+            // the environment, not the library: the mmap log channel maps a large region per channel and the kernel refuses it (ENOMEM) when too many
+            // processes on the machine hold such mappings at once -- whatever verdict a part derived from that panic, the case is inconclusive
+            Ok(mut r) => {
+                if let Verdict::Violation { detail, .. } = &r.verdict {
+                    if detail.contains("couldn't mmap file") && detail.contains("Cannot allocate memory") { r.verdict = Verdict::Inconclusive("environment: mmap refused (ENOMEM)".into()); r.nontrivial = false; }
+                }
+                r
+            },
             Err(p) => {
                 let msg = crate::sched::panic_message(&p);
                 let mut r = RunReport::pass();
